@@ -5,16 +5,20 @@ P = dict(
     level='exploration',
     technique='runtime monitoring: decision-table oracle (outstanding-address model + guard snapshot) against a private MemoryLeakDetector with a recording MemoryLeakFailure, '
               'driven directly (both node layouts, allocator objects and wrapper allocators) and through the global new/delete/new[]/delete[]/cpputest_malloc/free/realloc entry points; '
-              'recording allocators observe the bytes handed to free_memory (poison); ASan/UBSan build',
+              'recording allocators observe the bytes handed to free_memory (poison); the recording failure callback leaves the detector in each of four ways '
+              '(returns / longjmp around the one release / throws a C++ exception caught around the one release / forwards to cpputest\'s own MemoryLeakWarningReporter while the release runs inside a TestTestingFixture test); ASan/UBSan build',
     rule='a case is a scenario (allocate / write user, guard or padding bytes / release an address through a family / toggle type checking / switch allocators) run on a fresh detector; '
          'every release is judged: category of the callback (first line of the newly appended text) against the table of the statement, at most one callback, and in global mode the '
          'user bytes seen by free_memory. Exhaustive sections: 3 guard positions x 256 values x 69 sizes x 9 modes; guard subsets x family relation x checking; allocator-object/wrapper pairs; '
-         '14x14 global entry pairs; allocator switches; every interior/stale/foreign/NULL address class for sizes 0..64; every in-bounds position for sizes <= 256; padding bytes. '
+         '14x14 global entry pairs; allocator switches; every interior/stale/foreign/NULL address class for sizes 0..64; every in-bounds position for sizes <= 256; padding bytes; '
+         'reporter_exit: how the callback leaves (longjmp / throw / real reporter) x 9 modes (global: longjmp only) x 8^3 triples of consecutive (mis)uses on one detector '
+         '(correct, NULL, foreign, stale, interior, mismatch, corruption, realloc of a foreign address) x separator (none / startChecking / stopChecking+startChecking): every release after a report that left '
+         'non-locally is judged by the same table (key suffix after-report-left-by=<how>); random variants with 2..12 misuses, toggles and period operations, and the random histories draw the exit mode too. '
          'Non-trivial = scenario with a release whose expected verdict is a report, or of a block with an altered guard byte or a different releasing family; distinct by scenario fingerprint',
     floor=dict(quick=250000, thorough=1000000),
     counter_floor=dict(
-        quick=dict(poison_checked_releases=100000, expected_corruption=100000, expected_mismatch=20000, **{'expected_non-allocated': 100000}, expected_none=100000, releases_total=900000),
-        thorough=dict(poison_checked_releases=400000, expected_corruption=300000, expected_mismatch=100000, **{'expected_non-allocated': 300000}, expected_none=300000, releases_total=3000000),
+        quick=dict(reports_due_after_an_earlier_report_left_nonlocally=50000, reports_that_left_by_longjmp=30000, reports_that_left_by_throws=15000, **{'reports_that_left_by_real-reporter': 15000}, scenarios_with_two_or_more_reports_that_left_nonlocally=20000, poison_checked_releases=100000, expected_corruption=100000, expected_mismatch=20000, **{'expected_non-allocated': 100000}, expected_none=100000, releases_total=900000),
+        thorough=dict(reports_due_after_an_earlier_report_left_nonlocally=200000, reports_that_left_by_longjmp=100000, reports_that_left_by_throws=60000, **{'reports_that_left_by_real-reporter': 60000}, scenarios_with_two_or_more_reports_that_left_nonlocally=60000, poison_checked_releases=400000, expected_corruption=300000, expected_mismatch=100000, **{'expected_non-allocated': 300000}, expected_none=300000, releases_total=3000000),
     ),
     assumptions=[
         'the family of an allocator is its name() reached through actualAllocator() (anchors): two allocator objects with the same name are one family, wrappers belong to the family they wrap',
@@ -23,6 +27,11 @@ P = dict(
         'SimpleStringCacheAllocator is only used as a detector-side allocator with the inline layout and user sizes > 256 (it needs the allocation size back on free); MemoryLeakAllocator only with a second private detector installed as the global one',
         'realloc counts as a release of the old block for the report categories (not for the poison clause)',
         'not driven (caller obligation of DESIGN.md section 5, same node-layout flag): through the global entry points, a new/new[] block released through cpputest_free/realloc while no report is due and the current malloc allocator is cpputest\'s own default one - the detector then hands the inline bookkeeping node to free() (ASan bad-free); counted as skipped_cross_layout_release_into_default_malloc_allocator',
+        'a failure callback may leave the detector non-locally (cpputest\'s own reporter always does: failWith + longjmp); the statement quantifies over histories, so a release that follows such a report is judged like any other. '
+        'After a release whose report left, the block counts as released (the detector un-registers it before it reports - same as with a returning callback); after a realloc whose report left the state of the block is stated nowhere, so the scenario does not touch that block again (counted: blocks_not_touched_again_after_a_realloc_report_left)',
+        'non-returning callbacks are used only with the default (not thread-safe) overloads: a report that leaves a thread-safe wrapper keeps the detector mutex locked (known finding D10, property C10); through the global entry points only longjmp is used (operator delete is noexcept); '
+        'scenarios that use SimpleStringCacheAllocator as a detector allocator are not run inside a fixture test (its once-only warning prints the caller\'s non-string buffer through the current test; longjmp is used instead); '
+        'what the real reporter does with the text (failing the fixture test) is only counted, not judged (real_reporter_fixture_tests_failed, real_reporter_returned_to_the_detector)',
         'outside the monitored window the harness runs with the new/delete overloads switched off, so a broken process-wide detector cannot kill the harness before it reports',
     ],
 )
